@@ -469,8 +469,11 @@ fn exec_kdf(case: &Value) -> Value {
         }
         bump(&mut feat, "published_vector");
     }
-    // every single perturbation changes the key
-    if let Ok(base) = &send {
+    // every single perturbation changes the key.  Outside the domain: an X25519 peer public key of small order makes Z = 0
+    // whatever the secret key is (RFC 7748 §6.1 leaves the all-zero check optional; askar does not make it) — counted, not judged
+    let degenerate = z_s.as_ref().map(|zs| zs.iter().any(|z| z.iter().all(|b| *b == 0))).unwrap_or(false);
+    if degenerate { bump(&mut feat, "z_all_zero"); }
+    if let (Ok(base), false) = (&send, degenerate) {
         for (p, r) in perturbs.iter().zip(perturbed.iter()) {
             if let Ok(k) = r {
                 let f = p["f"].as_str().unwrap_or("?");
@@ -581,7 +584,11 @@ fn exec_box(case: &Value) -> Value {
         bump(&mut feat, "allbits");
         all_bits = json!(opened_bits);
     }
-    let valid = case["snd"]["c"] == "x25519" && case["rcp"]["c"] == "x25519" && has_secret(&case["snd"]) && has_secret(&case["rcp"]) && nonce.len() == 24;
+    let can_box = case["snd"]["c"] == "x25519" && case["rcp"]["c"] == "x25519" && has_secret(&case["snd"]) && nonce.len() == 24;
+    let valid = can_box && has_secret(&case["rcp"]);
+    if can_box && boxed.is_err() {
+        fail(&mut oracle, "box:error-on-valid-input".into(), json!({"box": jbytes(&boxed)}));
+    }
     if valid {
         match (&boxed, &opened) {
             (Ok(b), Ok(o)) => {
@@ -591,7 +598,7 @@ fn exec_box(case: &Value) -> Value {
             }
             _ => fail(&mut oracle, "box:error-on-valid-input".into(), json!({"box": jbytes(&boxed), "open": jbytes(&opened)})),
         }
-    } else if boxed.is_ok() {
+    } else if boxed.is_ok() && !can_box {
         fail(&mut oracle, "box:invalid-input-accepted".into(), json!(null));
     }
     if let Some(x) = case.get("expect").and_then(|v| v.as_str()) {
@@ -740,6 +747,14 @@ fn gen_key(r: &mut Rng, curve: &str) -> Value {
     json!({"c": curve, "sk": hex::encode(gen_sk(r, curve))})
 }
 
+/// a key pair on `curve` different from `old`
+fn gen_other_key(r: &mut Rng, curve: &str, old: &Value) -> Value {
+    loop {
+        let k = gen_key(r, curve);
+        if &k != old { return k; }
+    }
+}
+
 /// byte strings of every length class
 fn gen_field(r: &mut Rng, ascii: &[&str]) -> Value {
     match r.below(14) {
@@ -834,11 +849,11 @@ fn gen_kdf(r: &mut Rng, id: String) -> Value {
         let v = perturb_bytes(r, &case["tag"]);
         if value_from_json(&v).len() <= 124 { ps.push(json!({"f": "tag", "v": v})); }
         let c = case["snd"]["c"].as_str().unwrap_or("x25519").to_string();
-        if curve_zlen(&c).is_some() { ps.push(json!({"f": "snd", "v": gen_key(r, &c)})); }
+        if curve_zlen(&c).is_some() { let k = gen_other_key(r, &c, &case["snd"]); ps.push(json!({"f": "snd", "v": k})); }
     }
     for f in ["eph", "rcp"] {
         let c = case[f]["c"].as_str().unwrap_or("x25519").to_string();
-        if curve_zlen(&c).is_some() { ps.push(json!({"f": f, "v": gen_key(r, &c)})); }
+        if curve_zlen(&c).is_some() { let k = gen_other_key(r, &c, &case[f]); ps.push(json!({"f": f, "v": k})); }
     }
     // moving a byte across a field boundary must change the key (length prefixes)
     {
@@ -978,10 +993,11 @@ fn product_cases(r: &mut Rng) -> Vec<Value> {
                 let mut case = json!({"id": format!("prod-{}-{}-{}", curve, target, mode), "kind": "c15:kdf", "mode": mode, "target": target,
                     "eph": gen_key(r, curve), "snd": gen_key(r, curve), "rcp": gen_key(r, curve),
                     "alg": hexs(r.pick(&ALGS).as_bytes()), "apu": hexs(b"Alice"), "apv": hexs(b"Bob"), "tag": tag});
+                let (k1, k2, k3) = (gen_other_key(r, curve, &case["rcp"]), gen_other_key(r, curve, &case["eph"]), gen_other_key(r, curve, &case["snd"]));
                 let mut ps = vec![json!({"f": "apu", "v": hexs(b"Alicf")}), json!({"f": "apv", "v": hexs(b"Bo")}),
-                    json!({"f": "alg", "v": hexs(b"A128GCN")}), json!({"f": "rcp", "v": gen_key(r, curve)}), json!({"f": "eph", "v": gen_key(r, curve)})];
+                    json!({"f": "alg", "v": hexs(b"A128GCN")}), json!({"f": "rcp", "v": k1}), json!({"f": "eph", "v": k2})];
                 if mode == "1pu" {
-                    ps.push(json!({"f": "snd", "v": gen_key(r, curve)}));
+                    ps.push(json!({"f": "snd", "v": k3}));
                     ps.push(json!({"f": "tag", "v": hexs(&r.bytes(17))}));
                 }
                 case["perturb"] = json!(ps);
